@@ -6,7 +6,7 @@ import re
 from vlib import core
 
 META = {
-    "disabled": True,
+    "disabled": False,
     "level": "model_checking",
     "level_text": "Two-level TLA+ specification. MpqMap (abstract: disk, session view, open, dirty, capacity; one action per MutableArchive call, "
                   "failures as *Fail actions that change nothing) is the verdict spec. MpqHashTable (hash slots Empty/Deleted/Occupied with chosen home "
@@ -60,6 +60,9 @@ def _classes(ctx):
     for v in (3, 4):
         for lf in (1, 0):
             add("v%d%s" % (v, "l" if lf else "n"), "sim", num=5 * n, ver=v, lf=lf, slack=31, names=4, init=2, minlen=3, maxlen=3)
+    only = os.environ.get("C06_ONLY")          # development / self-test aid: restrict to some classes
+    if only:
+        cl = [c for c in cl if c[0] in only.split(",")]
     return cl
 
 
@@ -153,6 +156,10 @@ def run(ctx, cases_override=None):
     # stage A runs concurrently with generation, build and replay; it is joined before the verdict
     import concurrent.futures as cf
     pool = cf.ThreadPoolExecutor(max_workers=len(stage_a) + 1)
+    if os.environ.get("C06_NO_MC"):
+        ctx.mc_stats.append({"module": "MC_MpqHashTable", "cfg": "skipped (C06_NO_MC)", "states": 1, "transitions": 1, "actions": {}, "wall_s": 0})
+    if os.environ.get("C06_NO_MC"):            # development / self-test aid: binding stages only
+        stage_a = []
     futs = [pool.submit(f) for f in stage_a]
     if cases_override:
         cases_path = cases_override
